@@ -730,6 +730,30 @@ func TestC12(t *testing.T) {
 		res.Classes = append(res.Classes, "long-"+c.Kind)
 		return
 	}, HangLimit: 120 * time.Second}, r.N(300, 3000))
+	// a document with one very long line (a string of tens of thousands of characters cannot span lines) and a
+	// syntax error on that line or on a later one
+	core.DFS(r, core.Check[mutCase]{Name: "long-lines", Gen: func(s core.Source) mutCase {
+		length := []int{1000, 65536, 70000}[s.Choose(3, "length")]
+		long := strings.Repeat("abcdefgh", length/8)
+		where := s.Choose(4, "error")
+		doc := "[\n    1\n    \"" + long + "\"\n    2\n](List)\n"
+		switch where {
+		case 1: // on the long line
+			doc = "[\n    1\n    \"" + long + "\" $\n    2\n](List)\n"
+		case 2: // on the next line
+			doc = "[\n    1\n    \"" + long + "\"\n    $2\n](List)\n"
+		case 3: // at the very end
+			doc = "[\n    1\n    \"" + long + "\"\n    2\n](Lisp)\n"
+		}
+		return mutCase{Base: fmt.Sprintf("a string of %d characters on line 3, error variant %d", length, where), Input: doc}
+	}, Exec: func(c mutCase, _ core.Source) core.Result {
+		res := execInput(c.Input)
+		if res.Violation != nil && len(res.Violation.Message) > 700 {
+			res.Violation.Message = c.Base + ": " + res.Violation.Message[:300] + " ... " + res.Violation.Message[len(res.Violation.Message)-300:]
+		}
+		res.NonTrivial = true
+		return res
+	}, NoJournal: true, HangLimit: 300 * time.Second}, 0)
 	core.DFS(r, core.Check[longParserCase]{Name: "long-lived-parser", Gen: func(s core.Source) longParserCase {
 		return longParserCase{Docs: r.N(12000, 60000), Notation: s.Choose(2, "notation") == 1}
 	}, Exec: execLongParser("C12"), NoJournal: true, HangLimit: 600 * time.Second}, 0)
